@@ -4,7 +4,8 @@
 (* any timestamp, one database fault per request).                                                                *)
 (*   MC_Tail_spec.cfg     Dev = {}    : all invariants and all liveness properties hold                           *)
 (*   MC_Tail_ascoded.cfg  Dev = AllDev: the cursor and life-cycle properties still hold as the code is written;   *)
-(*   MC_Tail_dev_*.cfg    Dev = AllDev: the property the deviation breaks IS violated (else the switch is vacuous) *)
+(*   x01.py cex_* runs    one switch on: the property it is named for IS violated (else the switch is vacuous);  *)
+(*                        run on MC_TailSched so that the counterexample carries its schedule                    *)
 EXTENDS Tail
 
 CONSTANTS ReqKinds
